@@ -202,6 +202,17 @@ def run(ctx):
     dirty = fx.find(domain="comb", target="tag_di.dirty")
     ok = len(dirty) == 1 and dirty[0].state[1] == "TEST_HIT" and B.entails(dirty[0].eff(), B.from_expr("master.we & (tag_do.tag == adr_tag)"))
     ctx.ob("A3", WB, "Cache", "dirty set only by a write hit", ok, "" if ok else f"{[(a.state, a.gtext()) for a in dirty]}")
+    # a tag write on a hit re-writes the whole entry: it must carry dirty = 1, or a read hit would clean a modified line
+    hit = B.A("tag_do.tag == adr_tag")
+    Gd = dirty[0].eff() if dirty else B.F
+    tws = [a for a in fx.find(domain="comb", target="tag_port.we") if a.state and a.state[1] == "TEST_HIT" and a.v == "1"]
+    ctx.ob("A3", WB, "Cache", "tag writes in TEST_HIT:present", len(tws) >= 2, f"{len(tws)} tag writes in TEST_HIT", 0)
+    for a in tws:
+        G = B.And(a.eff(), hit)
+        ok = B.entails(G, Gd)
+        ctx.ob("A3", WB, "Cache", "a tag write on a hit sets dirty (never cleans a modified line)", ok,
+               "" if ok else f"tag_port.we under {B.show(a.eff())} can fire on a hit without tag_di.dirty = 1 ({B.show(Gd)}): the dirty bit "
+                             f"of a modified line is cleared, its write-back is skipped on eviction; e.g. {B.counterexample(G, Gd)}", a.line)
     wfs = fx.find(domain="comb", target="write_from_slave")
     ok = len(wfs) == 1 and wfs[0].state[1] == "REFILL" and B.equivalent(wfs[0].eff(), B.A("slave.ack"))
     ctx.ob("A3", WB, "Cache", "line written from the slave only in REFILL on slave.ack", ok, "" if ok else f"{[(a.state, a.gtext()) for a in wfs]}")
